@@ -9,7 +9,9 @@ RULE = ("Cross/CrossAbove/CrossUnder/Cross::default on pairs of series with exac
         "sticky walks and random series; reversal detectors on a de Bruijn sequence over the tie alphabet for all (left,right) "
         "with window <= 5, random (left,right) up to 126 on plateau/tie-heavy streams, and streams far longer than "
         "PeriodType::MAX (2000; thorough 70000 steps); distinct = distinct case lines")
-ASSUMPTIONS = ["the reversal definition is checked under the API convention that the first input equals the construction value "
+ASSUMPTIONS = ["Coq theorems for Cross / CrossAbove / CrossUnder and for Upper / Lower / ReversalSignal (every stream length, exact "
+               "carrier; the reversal theorems assume the API convention below)",
+               "the reversal definition is checked under the API convention that the first input equals the construction value "
                "(other cases are compared with the model only)"]
 TRUSTED_EXTRA = []
 
